@@ -60,6 +60,10 @@ Proved so far:
   like a binary counter.  Every act is answered `true`; at the end the replica reports the last length and its byte
   length and serves exactly the fetched blocks, byte-identical.  Key lemma: `Growth.dyadic_append_closed` — one
   aligned append takes a closed replica of the first `L` blocks to a closed replica of the first `L + 2^J` blocks.
+* `honest_growth_is_writers`: the upgrade answers used in `replica_grows` are what the writer's `create_valueless_proof`
+  returns for the request "upgrade me from `m`" when its log has `n` blocks (the "connect existing tree" walk of
+  `upgrade_proof` collects the right siblings from leaf `m − 1` up to the first new root: `Growth.connectWalk_honest`,
+  `grow_rightSibs`).
 * `honest_block_is_writers`: the proof applied in these theorems is the one the writer's `create_valueless_proof`
   produces for the replica's request, with the block's bytes.
 
@@ -293,5 +297,20 @@ theorem replica_grows (C : Crypto) (hC : TreeStore.HashWF C) (bs : Array Bytes) 
 
 /-- non-vacuity of the acts: for every pair of lengths there is an honest position list -/
 example (m n : Nat) (h : m < n) : ∃ us, Growth.Up m 0 (RefTree.rootsStack n).reverse us := Growth.up_exists0 m n h
+
+/-- the upgrade proofs of `replica_grows` are the writer's: a writer whose log is the first `n` blocks answers the request
+    "upgrade me from `m`" with exactly `Growth.honestGrowth` -/
+theorem honest_growth_is_writers (C : Crypto) (bs : Array Bytes) (n : Nat) (hn : n ≤ bs.size) (hs : bs.size < 2 ^ 64) (tw : Tree) (fw : File)
+    (hT : RefProof.RootsOK C (bs.extract 0 n) tw.changeset) (hN : Offsets.NodesOK C (bs.extract 0 n) tw fw)
+    (m : Nat) (hm0 : 0 < m) (hmn : m < n) (sig : Bytes) (hsig : tw.signature = some sig)
+    (us : List (Nat × Nat)) (hup : Growth.Up m 0 (RefTree.rootsStack n).reverse us) :
+    tw.createValuelessProof fw none none none (some ⟨m, n - m⟩)
+      = .ok ⟨tw.fork, none, none, none, (Growth.honestGrowth C bs tw.fork m n us sig).upgrade⟩ := by
+  have hsz := Growth.size_extract bs n hn
+  have := Growth.create_growth_proof C (bs.extract 0 n) tw fw hT hN (by rw [hsz]; omega) m hm0 (by rw [hsz]; exact hmn) sig hsig us
+    (by rw [hsz]; exact hup)
+  rw [hsz] at this
+  rw [this, ← Growth.honestGrowth_extract C bs n hn tw.fork m us sig hup]
+  rfl
 
 end HC.C03
